@@ -36,7 +36,25 @@ fn cap_braces(s: String) -> String {
     s.chars().filter(|c| if *c == '{' || *c == ',' { n += 1; n <= 14 } else { true }).collect()
 }
 
-pub fn next(rng: &mut Rng) -> (String, Value) {
+/// every string of length <= 6 over { } a, in a fixed order (independent of the seed): the
+/// compile-time balance check and the expansion loop must agree on what is well nested
+pub const SKELETONS: u64 = 1093;
+fn skeleton(mut i: u64) -> String {
+    // i-th string in length-then-lexicographic order over the 3 symbols
+    let mut len = 0;
+    let mut block = 1u64;
+    while i >= block { i -= block; len += 1; block *= 3; }
+    let mut s = vec![' '; len];
+    for k in (0..len).rev() { s[k] = ['{', '}', 'a'][(i % 3) as usize]; i /= 3; }
+    s.into_iter().collect()
+}
+
+pub fn next(rng: &mut Rng, i: u64) -> (String, Value) {
+    if i < SKELETONS {
+        let p = skeleton(i);
+        let ns: Vec<Value> = ["a", "aa", "", "aaa"].iter().map(|n| codes(n)).collect();
+        return ("patmatch".into(), json!({"p": codes(&p), "ns": ns}));
+    }
     match rng.below(16) {
         0 if rng.chance(1, 4) => {
             // small brace skeletons in every order, balanced or not, with a little filler: the
